@@ -198,6 +198,8 @@ MUTANTS = [
     ('C19', 'revert-shared-call-table', ('revert', 'fe719dc'), 'C19.l'),
     ('C19', 'revert-relay-by-everyone', ('revert', '077084b'), 'C19.k'),
     ('C19', 'stamp-after-fire', (R, NODE_PROTOCOL, "            event.node_protocol = self\n\n            self.fire(event, *event.channels)\n", "\n            self.fire(event, *event.channels)\n            event.node_protocol = self\n"), 'C19.k'),
+    ('C02', 'fire-rearms-stopped', (R, MANAGER, "        event.value = Value(event, self)\n        self.root._fire(event, channels, **kwargs)\n", "        event.value = Value(event, self)\n        event.stopped = False\n        self.root._fire(event, channels, **kwargs)\n"), 'C02.f'),
+    ('C02', 'stop-toggles', (R, EVENTS, "        self.stopped = True\n", "        self.stopped = not self.stopped\n"), 'C02.f'),
 ]
 
 # behaviour-preserving edits: the check of the property must stay silent
